@@ -13,6 +13,8 @@ import (
 
 func (g *Generator) parseCtors(srcTyp, destTyp types.Type, srcTypName, destTypName string) {
 	shootnewIface := g.newShooterIface()
+	g.srcCtorParams = nil
+	g.destCtorParams = nil
 	if types.AssignableTo(srcTyp, shootnewIface) {
 		fields := parseCtors(g.Pkg(), srcTyp, srcTypName)
 		g.srcCtorParams = fields
